@@ -149,8 +149,9 @@ type engine struct {
 	work [][]traceEntry
 	busy int
 	stop bool
-	rep  *Report
-	nsmp int
+	rep    *Report
+	nsmp   int
+	vcount map[string]int
 }
 
 type worker struct {
@@ -300,7 +301,12 @@ func (e *engine) merge(res *PathResult) {
 		}
 	}
 	for _, v := range res.Violations {
-		if len(r.Violations) < 50 {
+		k := v.Kind + "|" + v.Msg + "|" + strings.Join(v.Known, ",")
+		if e.vcount == nil {
+			e.vcount = map[string]int{}
+		}
+		e.vcount[k]++
+		if e.vcount[k] <= 3 && len(r.Violations) < 300 {
 			r.Violations = append(r.Violations, v)
 		}
 	}
